@@ -1,0 +1,386 @@
+//go:build verif
+
+// Contracts for the fvc verification-condition generator in /verif (comment-only file).
+// Package binder: pooled binders (C05), hand-written helpers reachable from request data (C07).
+
+package binder
+
+//@ props C05 C07
+
+// ---------------------------------------------------------------------------------------------
+// Pooled binders (binder.go, header.go, resp_header.go, cookie.go, query.go, form.go, uri.go, json.go, xml.go, cbor.go)
+//
+// Pool invariant: a binder in its pool carries nothing of the request (or the application) it served last: every
+// field has its zero value. It is established by the pools' New functions (pool-new), re-established by Reset
+// (reset), and Bind never writes the binder (the frame of every Bind below does not contain a binder field - a Bind
+// that caches request data in the pooled object fails its frame obligation). The Put side is in bind.go: every
+// PutToThePool there is preceded by Reset and carries the obligation `pool-invariant` (zz_contracts_c05_verif.go).
+// ---------------------------------------------------------------------------------------------
+//@ macro switchClean(b) = b != nil && !b.EnableSplitting && !b.Immutable
+
+// Assumption about sync.Pool (the only one, as for the other pools of the library): Get returns New() or an object that
+// was Put and not touched since, and never hands one object to two users. Hence what Get returns satisfies what is proved
+// of every New (`pool-new`) and at every Put (`pool-invariant`, in bind.go).
+//@ func @sync.(*Pool).Get(p) assumed pure allocates
+//@   ensures header-pool-invariant: typeis(result, *HeaderBinding) ==> switchClean(as(result, *HeaderBinding))
+//@   ensures resp-header-pool-invariant: typeis(result, *RespHeaderBinding) ==> switchClean(as(result, *RespHeaderBinding))
+//@   ensures cookie-pool-invariant: typeis(result, *CookieBinding) ==> switchClean(as(result, *CookieBinding))
+//@   ensures query-pool-invariant: typeis(result, *QueryBinding) ==> switchClean(as(result, *QueryBinding))
+//@   ensures form-pool-invariant: typeis(result, *FormBinding) ==> switchClean(as(result, *FormBinding))
+//@   ensures json-pool-invariant: typeis(result, *JSONBinding) ==> as(result, *JSONBinding) != nil && as(result, *JSONBinding).JSONDecoder == nil
+//@   ensures xml-pool-invariant: typeis(result, *XMLBinding) ==> as(result, *XMLBinding) != nil && as(result, *XMLBinding).XMLDecoder == nil
+//@   ensures cbor-pool-invariant: typeis(result, *CBORBinding) ==> as(result, *CBORBinding) != nil && as(result, *CBORBinding).CBORDecoder == nil
+
+// The New functions of the nine pools (in declaration order): a new binder of the pool's own type, every field zero.
+//@ func init$1
+//@   pure
+//@   ensures pool-new: typeis(result, *HeaderBinding) && switchClean(as(result, *HeaderBinding))
+//@ func init$2
+//@   pure
+//@   ensures pool-new: typeis(result, *RespHeaderBinding) && switchClean(as(result, *RespHeaderBinding))
+//@ func init$3
+//@   pure
+//@   ensures pool-new: typeis(result, *CookieBinding) && switchClean(as(result, *CookieBinding))
+//@ func init$4
+//@   pure
+//@   ensures pool-new: typeis(result, *QueryBinding) && switchClean(as(result, *QueryBinding))
+//@ func init$5
+//@   pure
+//@   ensures pool-new: typeis(result, *FormBinding) && switchClean(as(result, *FormBinding))
+//@ func init$6
+//@   pure
+//@   ensures pool-new: typeis(result, *URIBinding) && as(result, *URIBinding) != nil
+//@ func init$7
+//@   pure
+//@   ensures pool-new: typeis(result, *XMLBinding) && as(result, *XMLBinding) != nil && as(result, *XMLBinding).XMLDecoder == nil
+//@ func init$8
+//@   pure
+//@   ensures pool-new: typeis(result, *JSONBinding) && as(result, *JSONBinding) != nil && as(result, *JSONBinding).JSONDecoder == nil
+//@ func init$9
+//@   pure
+//@   ensures pool-new: typeis(result, *CBORBinding) && as(result, *CBORBinding) != nil && as(result, *CBORBinding).CBORDecoder == nil
+
+// GetFromThePool / PutToThePool are generic: the generator checks the generic bodies (T opaque). What can be said there:
+// they use the pool they are given and nothing else. `panics`: the explicit panic of GetFromThePool is its documented
+// reaction to a pool that holds a foreign object; that no pool of this package does is the content of pool-new above
+// and of the own-pool/own-type obligations at the PutToThePool calls of bind.go (the generic body cannot state it).
+//@ func GetFromThePool panics
+//@   pure
+//@   atcall @sync.(*Pool).Get: own-pool: p == pool
+//@ func PutToThePool
+//@   pure
+//@   atcall @sync.(*Pool).Put: own-pool: p == pool
+//@   ensures handed-back: called(@sync.(*Pool).Put)
+
+// Reset: every field of the binder back to its zero value.
+//@ func (*HeaderBinding).Reset
+//@   modifies b.EnableSplitting, b.Immutable
+//@   ensures reset: !b.EnableSplitting && !b.Immutable
+//@ func (*RespHeaderBinding).Reset
+//@   modifies b.EnableSplitting, b.Immutable
+//@   ensures reset: !b.EnableSplitting && !b.Immutable
+//@ func (*CookieBinding).Reset
+//@   modifies b.EnableSplitting, b.Immutable
+//@   ensures reset: !b.EnableSplitting && !b.Immutable
+//@ func (*QueryBinding).Reset
+//@   modifies b.EnableSplitting, b.Immutable
+//@   ensures reset: !b.EnableSplitting && !b.Immutable
+//@ func (*FormBinding).Reset
+//@   modifies b.EnableSplitting, b.Immutable
+//@   ensures reset: !b.EnableSplitting && !b.Immutable
+//@ func (*JSONBinding).Reset
+//@   modifies b.JSONDecoder
+//@   ensures reset: b.JSONDecoder == nil
+//@ func (*XMLBinding).Reset
+//@   modifies b.XMLDecoder
+//@   ensures reset: b.XMLDecoder == nil
+//@ func (*CBORBinding).Reset
+//@   modifies b.CBORDecoder
+//@   ensures reset: b.CBORDecoder == nil
+// (the URI binder has no field)
+//@ func (*URIBinding).Reset
+//@   pure
+
+// ---------------------------------------------------------------------------------------------
+// Bind methods. Each one collects the request's fields into a map of its own (made in the call: nothing of it survives
+// the call), hands the map to the decoder and returns. Frame: the data map, the slices in it, the scratch byte buffer
+// of the bracket rewriting, equalFieldType's local, and what the decoder writes (see `parse`) - NOT the binder: a Bind
+// that keeps request data in the pooled object fails `frame:H_binder_<Type>_<field>`. The explicit clause
+// binder-keeps-only-its-configuration repeats that for the one field the binders have.
+// The visitor closures ($1) hand every key/value to formatBindData with the binder's own switch and this call's map.
+// ---------------------------------------------------------------------------------------------
+// C06 (Immutable: "... and string fields filled by binding" keep their content after the handler returns): the decoder
+// stores the strings of the data map as they are (struct string fields, map keys and values - parseToMap below,
+// gofiber/schema: assumed), so every key and value a visitor hands to formatBindData must be `stable` (vocabulary of
+// /repo/zz_contracts_c06_verif.go: only copying conversions give that fact; utils.UnsafeString gives none) whenever the
+// binder may be serving an application with Config.Immutable.
+// (REPAIRED by fix_1.diff: the binders have an Immutable switch, set by bind.go from Config.Immutable like EnableSplitting -
+// clause immutable-passed-on there -, and convert with toString, which copies when the switch is on.)
+//@ macro mayServeImmutable(b) = b.Immutable
+// toString: the bytes as a string; a copy of its own when `immutable`.
+//@ func toString
+//@   props C06 C07
+//@   pure
+//@   ensures same-content: result == str(b)
+//@   ensures [C06] copied-when-immutable: immutable ==> stable(result)
+
+//@ func (*HeaderBinding).Name
+//@   pure
+//@   ensures result == "header"
+//@ func (*RespHeaderBinding).Name
+//@   pure
+//@   ensures result == "respHeader"
+//@ func (*CookieBinding).Name
+//@   pure
+//@   ensures result == "cookie"
+//@ func (*QueryBinding).Name
+//@   pure
+//@   ensures result == "query"
+//@ func (*FormBinding).Name
+//@   pure
+//@   ensures result == "form"
+//@ func (*URIBinding).Name
+//@   pure
+//@   ensures result == "uri"
+//@ func (*JSONBinding).Name
+//@   pure
+//@   ensures result == "json"
+//@ func (*XMLBinding).Name
+//@   pure
+//@   ensures result == "xml"
+//@ func (*CBORBinding).Name
+//@   pure
+//@   ensures result == "cbor"
+
+//@ func (*HeaderBinding).Bind
+//@   props C05 C07
+//@   requires binder: b != nil
+//@   modifies heap(C_error), heap(MD_string_LJstring), heap(MV_string_LJstring), heap(E_string), heap(H_bytebufferpool_ByteBuffer_B), heap(E_uint8), heap(O_reflect_StructField), heap(MD_string_string), heap(MV_string_string)
+//@   ensures [C05] binder-keeps-only-its-configuration: b.EnableSplitting == old(b.EnableSplitting) && b.Immutable == old(b.Immutable)
+//@ func (*HeaderBinding).Bind$1
+//@   props C05 C07 C06
+//@   preserves data-map: data != nil
+//@   modifies heap(C_error), heap(MD_string_LJstring), heap(MV_string_LJstring), heap(E_string), heap(H_bytebufferpool_ByteBuffer_B), heap(E_uint8), heap(O_reflect_StructField)
+//@   atcall formatBindData: [C05] binders-own-switch-no-brackets: enableSplitting == b.EnableSplitting && !supportBracketNotation
+//@   atcall formatBindData: into-this-calls-map: data == old(data) && out == old(out)
+//@   atcall formatBindData: [C06] immutable-stable: mayServeImmutable(b) ==> stable(key) && stable(value)
+
+//@ func (*RespHeaderBinding).Bind
+//@   props C05 C07
+//@   requires binder: b != nil
+//@   modifies heap(C_error), heap(MD_string_LJstring), heap(MV_string_LJstring), heap(E_string), heap(H_bytebufferpool_ByteBuffer_B), heap(E_uint8), heap(O_reflect_StructField), heap(MD_string_string), heap(MV_string_string)
+//@   ensures [C05] binder-keeps-only-its-configuration: b.EnableSplitting == old(b.EnableSplitting) && b.Immutable == old(b.Immutable)
+//@ func (*RespHeaderBinding).Bind$1
+//@   props C05 C07 C06
+//@   preserves data-map: data != nil
+//@   modifies heap(C_error), heap(MD_string_LJstring), heap(MV_string_LJstring), heap(E_string), heap(H_bytebufferpool_ByteBuffer_B), heap(E_uint8), heap(O_reflect_StructField)
+//@   atcall formatBindData: [C05] binders-own-switch-no-brackets: enableSplitting == b.EnableSplitting && !supportBracketNotation
+//@   atcall formatBindData: into-this-calls-map: data == old(data) && out == old(out)
+//@   atcall formatBindData: [C06] immutable-stable: mayServeImmutable(b) ==> stable(key) && stable(value)
+
+//@ func (*CookieBinding).Bind
+//@   props C05 C07
+//@   requires binder: b != nil
+//@   modifies jarHas, jarVal, jarVisits, jarVisitAtNext, heap(C_error), heap(MD_string_LJstring), heap(MV_string_LJstring), heap(E_string), heap(H_bytebufferpool_ByteBuffer_B), heap(E_uint8), heap(O_reflect_StructField), heap(MD_string_string), heap(MV_string_string)
+//@   ensures [C05] binder-keeps-only-its-configuration: b.EnableSplitting == old(b.EnableSplitting) && b.Immutable == old(b.Immutable)
+//@ func (*CookieBinding).Bind$1
+//@   props C05 C07 C06
+//@   preserves data-map: data != nil
+//@   modifies heap(C_error), heap(MD_string_LJstring), heap(MV_string_LJstring), heap(E_string), heap(H_bytebufferpool_ByteBuffer_B), heap(E_uint8), heap(O_reflect_StructField)
+//@   atcall formatBindData: [C05] binders-own-switch-no-brackets: enableSplitting == b.EnableSplitting && !supportBracketNotation
+//@   atcall formatBindData: into-this-calls-map: data == old(data) && out == old(out)
+//@   atcall formatBindData: [C06] immutable-stable: mayServeImmutable(b) ==> stable(key) && stable(value)
+
+//@ func (*QueryBinding).Bind
+//@   props C05 C07
+//@   requires binder: b != nil
+//@   modifies heap(C_error), heap(MD_string_LJstring), heap(MV_string_LJstring), heap(E_string), heap(H_bytebufferpool_ByteBuffer_B), heap(E_uint8), heap(O_reflect_StructField), heap(MD_string_string), heap(MV_string_string)
+//@   ensures [C05] binder-keeps-only-its-configuration: b.EnableSplitting == old(b.EnableSplitting) && b.Immutable == old(b.Immutable)
+//@ func (*QueryBinding).Bind$1
+//@   props C05 C07 C06
+//@   preserves data-map: data != nil
+//@   modifies heap(C_error), heap(MD_string_LJstring), heap(MV_string_LJstring), heap(E_string), heap(H_bytebufferpool_ByteBuffer_B), heap(E_uint8), heap(O_reflect_StructField)
+//@   atcall formatBindData: [C05] binders-own-switch-with-brackets: enableSplitting == b.EnableSplitting && supportBracketNotation
+//@   atcall formatBindData: into-this-calls-map: data == old(data) && out == old(out)
+//@   atcall formatBindData: [C06] immutable-stable: mayServeImmutable(b) ==> stable(key) && stable(value)
+
+//@ func (*FormBinding).Bind
+//@   props C05 C07
+//@   requires binder: b != nil
+//@   modifies heap(C_error), heap(MD_string_LJstring), heap(MV_string_LJstring), heap(E_string), heap(H_bytebufferpool_ByteBuffer_B), heap(E_uint8), heap(O_reflect_StructField), heap(MD_string_string), heap(MV_string_string)
+//@   ensures [C05] binder-keeps-only-its-configuration: b.EnableSplitting == old(b.EnableSplitting) && b.Immutable == old(b.Immutable)
+//@ func (*FormBinding).Bind$1
+//@   props C05 C07 C06
+//@   preserves data-map: data != nil
+//@   modifies heap(C_error), heap(MD_string_LJstring), heap(MV_string_LJstring), heap(E_string), heap(H_bytebufferpool_ByteBuffer_B), heap(E_uint8), heap(O_reflect_StructField)
+//@   atcall formatBindData: [C05] binders-own-switch-with-brackets: enableSplitting == b.EnableSplitting && supportBracketNotation
+//@   atcall formatBindData: into-this-calls-map: data == old(data) && out == old(out)
+//@   atcall formatBindData: [C06] immutable-stable: mayServeImmutable(b) ==> stable(key) && stable(value)
+
+// multipart: the form's fields and files come as Go maps (made by mime/multipart for this request)
+//@ func (*FormBinding).bindMultipart
+//@   props C05 C07
+//@   requires binder: b != nil
+//@   modifies heap(MD_string_LJstring), heap(MV_string_LJstring), heap(E_string), heap(H_bytebufferpool_ByteBuffer_B), heap(E_uint8), heap(O_reflect_StructField), heap(MD_string_string), heap(MV_string_string), heap(MD_string_LJp_multipart_FileHeader), heap(MV_string_LJp_multipart_FileHeader), heap(E_p_multipart_FileHeader)
+//@   atcall formatBindData: [C05] binders-own-switch-with-brackets: enableSplitting == b.EnableSplitting && supportBracketNotation && out == old(out)
+//@   ensures [C05] binder-keeps-only-its-configuration: b.EnableSplitting == old(b.EnableSplitting) && b.Immutable == old(b.Immutable)
+
+// URI: the route's parameter names with the values the context reports for them (paramsFunc is Ctx.Params, handed in
+// by bind.go: a read-only accessor).
+//@ func param paramsFunc assumed pure
+//@ func (*URIBinding).Bind
+//@   props C05 C07
+//@   requires binder: b != nil
+//@   modifies heap(MD_string_LJstring), heap(MV_string_LJstring), heap(E_string), heap(H_bytebufferpool_ByteBuffer_B), heap(E_uint8), heap(O_reflect_StructField), heap(MD_string_string), heap(MV_string_string)
+//@   loop 1
+//@     invariant data-map: data != nil
+//@     decreases len(params) - rangeindex
+
+// JSON / XML / CBOR: the configured decoder is applied to the body; the binder is only read.
+//@ func JSONBinding.JSONDecoder assumed
+//@   modifies heap(MD_string_string), heap(MV_string_string), heap(MD_string_LJstring), heap(MV_string_LJstring)
+//@ func XMLBinding.XMLDecoder assumed
+//@   modifies heap(MD_string_string), heap(MV_string_string), heap(MD_string_LJstring), heap(MV_string_LJstring)
+//@ func CBORBinding.CBORDecoder assumed
+//@   modifies heap(MD_string_string), heap(MV_string_string), heap(MD_string_LJstring), heap(MV_string_LJstring)
+//@ func (*JSONBinding).Bind
+//@   props C05 C07
+//@   requires binder: b != nil
+//@   modifies heap(MD_string_string), heap(MV_string_string), heap(MD_string_LJstring), heap(MV_string_LJstring)
+//@   ensures [C05] binder-keeps-only-its-configuration: b.JSONDecoder == old(b.JSONDecoder)
+//@ func (*XMLBinding).Bind
+//@   props C05 C07
+//@   requires binder: b != nil
+//@   modifies heap(MD_string_string), heap(MV_string_string), heap(MD_string_LJstring), heap(MV_string_LJstring)
+//@   ensures [C05] binder-keeps-only-its-configuration: b.XMLDecoder == old(b.XMLDecoder)
+//@ func (*CBORBinding).Bind
+//@   props C05 C07
+//@   requires binder: b != nil
+//@   modifies heap(MD_string_string), heap(MV_string_string), heap(MD_string_LJstring), heap(MV_string_LJstring)
+//@   ensures [C05] binder-keeps-only-its-configuration: b.CBORDecoder == old(b.CBORDecoder)
+
+// ---------------------------------------------------------------------------------------------
+// Decoding (mapping.go). parse looks at the kind of `out` by reflection (not modelled: both ways are explored) and
+// either copies the data map into the application's map (parseToMap: checked) or hands it to gofiber/schema
+// (parseToStruct: ASSUMED, see below).
+// ---------------------------------------------------------------------------------------------
+// ASSUMED (reflection-based decoding, gofiber/schema): parseToStruct takes a *schema.Decoder from the pool of the
+// alias tag, sets the alias tag, decodes `data` (and `files`) into the struct `out` points to and puts the decoder back.
+// Assumed of it: (1) it writes nothing but the application's object behind `out` (no object of this package: no binder,
+// no data map; the types of the application are not types of this package, so the frame below is empty here);
+// (2) the pooled decoder keeps nothing of a decoding but its per-type field cache and the converters configured by
+// SetParserDecoder (shared on purpose), the alias tag is set before every use; (3) decoderPoolMap has an entry for each of
+// the six binder names (init / SetParserDecoder fill it for every element of `tags`) and its pools hold *schema.Decoder
+// only, so neither the map lookup nor the type assertion panics; (4) Decode stores the strings of `data` as they are
+// (no copy: relevant for C06).
+//@ func parseToStruct assumed pure
+
+// parseToMap: the data map is copied into the application's map (all values / the last value of each key); which of the two
+// loops runs is decided by reflection (not modelled). Checked: the frame, `v[len(v)-1]` stays in range, the only error is
+// ErrMapNotConvertable.
+//@ func parseToMap
+//@   props C07
+//@   ensures only-error: result == nil || result == ErrMapNotConvertable
+//@   modifies heap(MD_string_LJstring), heap(MV_string_LJstring), heap(MD_string_string), heap(MV_string_string)
+//@ func parse
+//@   props C07
+//@   modifies heap(MD_string_LJstring), heap(MV_string_LJstring), heap(MD_string_string), heap(MV_string_string)
+
+// ---------------------------------------------------------------------------------------------
+// mapping.go
+// ---------------------------------------------------------------------------------------------
+
+// FilterFlags: the content type up to the first ' ' or ';'.
+//@ fn ascii(s string) bool = forall(k, 0, len(s), s[k] < 128)
+//@ func FilterFlags
+//@   props C07
+//@   pure
+//@   loop 1
+//@     invariant none-so-far: ascii(content) ==> forall(k, 0, rangepos(), content[k] != ' ' && content[k] != ';')
+//@     decreases len(content) - rangepos()
+//@   ensures prefix: len(result) <= len(content) && result == content[:len(result)]
+//@   ensures cut-at-a-separator: len(result) < len(content) ==> content[len(result)] == ' ' || content[len(result)] == ';'
+//@   ensures first-separator: ascii(content) ==> forall(k, 0, len(result), content[k] != ' ' && content[k] != ';')
+
+// parseParamSquareBrackets: "a[b][c]" -> "a.b.c".
+// emits(k, i): number of bytes written for byte i of k ('[' becomes '.' unless it is the last byte or "[]"; ']' is dropped)
+//@ fn emits(k string, i int) int = ite(k[i] == '[', ite(i + 1 < len(k) && k[i+1] != ']', 1, 0), ite(k[i] == ']', 0, 1))
+//@ recfn outLen(k string, n int) int = ite(n <= 0, 0, outLen(k, n - 1) + emits(k, n - 1))
+//@ recfn depth(k string, n int) int = ite(n <= 0, 0, depth(k, n - 1) + ite(k[n-1] == '[', 1, ite(k[n-1] == ']', -1, 0)))
+//@ func parseParamSquareBrackets
+//@   props C07
+//@   modifies heap(H_bytebufferpool_ByteBuffer_B), heap(E_uint8)
+//@   loop 1
+//@     invariant in-range: 0 <= rangeindex + 1 && rangeindex + 1 <= len(k) && len(kbytes) == len(k) && str(kbytes) == k
+//@     invariant own-buffer: bb != nil && allocated(arr(kbytes)) && arr(kbytes) != arr(bb.B)
+//@     invariant depth: openBracketsCount == depth(k, rangeindex + 1) && forall(j, 0, rangeindex + 2, depth(k, j) >= 0)
+//@     invariant written: len(bb.B) == outLen(k, rangeindex + 1)
+//@     invariant positions-grow: forall(j, 0, rangeindex + 2, 0 <= outLen(k, j) && outLen(k, j) <= outLen(k, rangeindex + 1) && outLen(k, j) <= j)
+//@     invariant content: forall(j, 0, rangeindex + 1, emits(k, j) == 1 ==> str(bb.B)[outLen(k, j)] == ite(k[j] == '[', '.', k[j]))
+//@     invariant no-bracket-written: forall(i, 0, len(bb.B), str(bb.B)[i] != '[' && str(bb.B)[i] != ']')
+//@     decreases len(k) - rangeindex
+//@   ensures error-iff-unbalanced: result1 != nil <==> (depth(k, len(k)) != 0 || exists(j, 0, len(k) + 1, depth(k, j) < 0))
+//@   ensures error-empty: result1 != nil ==> result0 == ""
+//@   ensures length: result1 == nil ==> len(result0) == outLen(k, len(k))
+//@   ensures not-longer-than-the-key: len(result0) <= len(k)
+//@   ensures content: result1 == nil ==> forall(j, 0, len(k), emits(k, j) == 1 ==> result0[outLen(k, j)] == ite(k[j] == '[', '.', k[j]))
+//@   ensures example-nested: k == "a[b][c]" ==> result1 == nil && result0 == "a.b.c"
+//@   ensures example-unbalanced: k == "a[b" || k == "a]b" ==> result1 != nil
+//@   ensures no-brackets-left: forall(i, 0, len(result0), result0[i] != '[' && result0[i] != ']')
+
+// assignBindData appends the value (or, when splitting applies, each of its comma-separated pieces) to data[key];
+// no other key of the map is touched.
+//@ macro lenAt(data, key) = ite(indom(data, key), len(data[key]), 0)
+//@ func assignBindData
+//@   props C07
+//@   requires data-map: data != nil
+//@   modifies heap(MD_string_LJstring), heap(MV_string_LJstring), heap(E_string)
+//@   loop 1
+//@     invariant index-in-range: 0 <= i && i <= len(values) && len(values) >= 1
+//@     invariant others-kept: forallS(q, q != key ==> indom(data, q) == old(indom(data, q)) && data[q] == old(data[q]))
+//@     invariant one-per-piece: lenAt(data, key) == old(lenAt(data, key)) + i
+//@     invariant present-after-the-first: i > 0 ==> indom(data, key) && len(data[key]) >= i
+//@     invariant earlier-values-kept: forall(j, 0, old(lenAt(data, key)), data[key][j] == old(data[key][j]))
+//@     decreases len(values) - i
+//@   ensures key-present: indom(data, key)
+//@   ensures others-kept: forallS(q, q != key ==> indom(data, q) == old(indom(data, q)) && data[q] == old(data[q]))
+//@   ensures at-least-one-more: len(data[key]) >= old(lenAt(data, key)) + 1
+//@   ensures earlier-values-kept: forall(j, 0, old(lenAt(data, key)), data[key][j] == old(data[key][j]))
+//@   ensures one-or-every-piece: len(data[key]) == old(lenAt(data, key)) + 1 || (enableSplitting && strContains(value, ",") && len(data[key]) == old(lenAt(data, key)) + splitCount(value, ","))
+//@   ensures unsplit-value-as-is: !enableSplitting || !strContains(value, ",") ==> len(data[key]) == old(lenAt(data, key)) + 1 && data[key][old(lenAt(data, key))] == value
+
+// equalFieldType: reflection over the destination type (the reflect calls are not modelled: results unknown, no
+// effect; reflect's own panics - out not a pointer - are outside the model). What is checked: it changes nothing,
+// its two loops end, strings.Split(tag, ",")[0] is in range.
+// (frame: nothing but the function's own local copy of a reflect.StructField - `typeField := outTyp.Field(i)` - is written;
+// the whole-value token heap O_reflect_StructField has to be named because the generator loses, at the loop head, that the
+// local is the only object written in it)
+//@ func equalFieldType
+//@   props C07
+//@   modifies heap(O_reflect_StructField)
+//@   loop 1
+//@     invariant counter: 0 <= i
+//@     decreases typeNumField(outTyp) - i
+//@   loop 2
+//@     invariant counter: 0 <= j && 0 <= i
+//@     decreases valueNumField(structField) - j
+
+// formatBindData is generic in the element type T of the data map and in the type K of the value. The generator checks
+// the GENERIC body, in which T and K are opaque types: `any(value).(string)` has an unknown outcome (both branches are
+// explored), but `any(data).(map[string][]string)` and `any(val).(T)` can never succeed in the model, so the two calls of
+// assignBindData and the append of the file branch are UNREACHABLE there and nothing is proved about them (a clause
+// `atcall assignBindData: false` is discharged - engine limitation, see the report). What is really checked here: the
+// bracket rewriting of the key and its error exit, the three "unsupported value type" exits, the frame on those paths.
+// The frame below therefore lists by hand what assignBindData (its own contract is proved) and the file branch write.
+// A key with brackets is rewritten first (query and form binders); unbalanced brackets are an error and nothing is added.
+//@ macro unbalanced(k) = depth(k, len(k)) != 0 || exists(j, 0, len(k) + 1, depth(k, j) < 0)
+//@ macro bracketed(flag, k) = flag && strContains(k, "[")
+//@ func formatBindData
+//@   props C07
+//@   requires data-map: data != nil
+//@   modifies heap(MD_string_LJstring), heap(MV_string_LJstring), heap(E_string), heap(H_bytebufferpool_ByteBuffer_B), heap(E_uint8), heap(MD_string_LJT), heap(MV_string_LJT), heap(E_T)
+//@   loop 1
+//@     decreases len(v) - rangeindex
+//@   loop 2
+//@     decreases len(v) - rangeindex
+//@   ensures unbalanced-brackets-are-an-error: bracketed(supportBracketNotation, key) && unbalanced(key) ==> result != nil && !called(assignBindData)
